@@ -269,6 +269,22 @@ impl Driver {
     }
 }
 
+fn thread_count() -> usize {
+    std::fs::read_dir("/proc/self/task").map(|d| d.count()).unwrap_or(0)
+}
+
+/// Waits until the process is back to `baseline` threads, i.e. the storage backend's worker
+/// thread (a plain std::thread started at open) has completely exited. Deterministic
+/// replacement for a settle delay.
+async fn wait_for_backend_threads_to_exit(baseline: usize) {
+    for _ in 0..2_000 {
+        if thread_count() <= baseline {
+            return;
+        }
+        tokio::time::sleep(Duration::from_millis(1)).await;
+    }
+}
+
 fn scratch_root() -> PathBuf {
     scratch_dir("c17")
 }
@@ -326,6 +342,10 @@ async fn c17_sequence(backend: Backend, seed: u64, i: u64, root: &Path) -> CaseO
             },
             Backend::Lmdb => {
                 let _ = std::fs::create_dir_all(&path);
+                // make sure tokio's blocking pool thread (used by the open) already exists, then
+                // remember how many threads there are without an open environment
+                let _ = tokio::task::spawn_blocking(|| {}).await;
+                let baseline = thread_count();
                 match datacake_lmdb::LmdbStorage::open(&path).await {
                     Ok(st) => {
                         let mut r = Ok(());
@@ -339,13 +359,16 @@ async fn c17_sequence(backend: Backend, seed: u64, i: u64, root: &Path) -> CaseO
                         if r.is_ok() {
                             r = d.drive(&st, steps).await;
                         }
+                        // Shutdown order matters: the backend's worker thread drops its Env clone and
+                        // then exits, and at thread exit LMDB's reader-slot destructor touches the
+                        // environment's lock table. If the LAST Env clone is dropped on this thread at
+                        // that moment, mdb_env_close unmaps the table under the destructor (SIGSEGV in
+                        // mdb_env_reader_dest). So: keep one clone alive, let the worker exit completely,
+                        // only then close the environment.
                         let env = st.handle().env().clone();
                         drop(st);
+                        wait_for_backend_threads_to_exit(baseline).await;
                         env.prepare_for_closing().wait();
-                        // let the backend's worker thread finish exiting before another
-                        // environment is opened: LMDB's per-thread reader slot lives in a
-                        // pthread key which the next environment would reuse
-                        tokio::time::sleep(Duration::from_millis(15)).await;
                         r
                     },
                     Err(e) => Err(Fail { what: "open-error".into(), detail: json!(e.to_string()) }),
@@ -415,7 +438,28 @@ pub fn c17(args: &Args) {
     let root = scratch_root();
     if let Some(path) = &args.replay {
         let r = read_replay(path);
-        let out = block_on_real(2, c17_sequence(backend_from(r["backend"].as_str().unwrap()), r["seed"].as_u64().unwrap(), r["index"].as_u64().unwrap(), &root));
+        let backend = backend_from(r["backend"].as_str().unwrap());
+        if let Some(b) = r["batch"].as_array() {
+            // a batch of LMDB sequences whose process died: run it here, the driver sees the crash
+            let rt = lmdb_runtime();
+            for i in b[0].as_u64().unwrap()..b[1].as_u64().unwrap() {
+                let out = rt.block_on(c17_sequence(backend, r["seed"].as_u64().unwrap(), i, &root));
+                report.absorb(out);
+            }
+            std::mem::forget(rt);
+            let _ = std::fs::remove_dir_all(&root);
+            report.finish(args);
+            return;
+        }
+        let fut = c17_sequence(backend, r["seed"].as_u64().unwrap(), r["index"].as_u64().unwrap(), &root);
+        let out = if backend == Backend::Lmdb {
+            let rt = lmdb_runtime();
+            let out = rt.block_on(fut);
+            std::mem::forget(rt);
+            out
+        } else {
+            block_on_real(2, fut)
+        };
         report.absorb(out);
         let _ = std::fs::remove_dir_all(&root);
         report.finish(args);
@@ -437,51 +481,103 @@ pub fn c17(args: &Args) {
             block_on_real(0, c17_sequence(backend, seed, i / nb, &root2))
         });
     }
-    // LMDB sequences run in child processes, one long-lived runtime each whose
-    // threads never exit: LMDB keeps a per-thread reader slot in pthread TSD and
-    // pthread keys are reused after an environment is closed, so a pool thread
-    // that outlives "its" environment runs the reader destructor of a later
-    // environment on a dangling slot (a harness artefact of opening hundreds of
-    // environments in one process, datacake itself opens one).
+    // LMDB sequences run in child processes (one long-lived runtime each, pool threads
+    // never exit), so that a crash inside liblmdb cannot take the monitor down and is
+    // classified by the parent. The crash seen during development was a shutdown race
+    // between the backend's exiting worker thread and the close of the environment; the
+    // shutdown order in c17_sequence avoids it (see the comment there).
     if args.opt_str("backend").map_or(true, |b| b == "lmdb") {
         let exe = std::env::current_exe().expect("own path");
         let children = args.threads.max(1) as u64;
         let per_child = (per_backend + children - 1) / children;
+        let budget = args.pick(240, 3000).to_string();
+        let spawn = |c: u64, attempt: u32| {
+            let (from, to) = (c * per_child, ((c + 1) * per_child).min(per_backend));
+            let out = root.join(format!("lmdb-child-{c}-{attempt}.json"));
+            let err = root.join(format!("lmdb-child-{c}-{attempt}.err"));
+            let _ = std::fs::create_dir_all(&root);
+            let child = std::fs::File::create(&err).and_then(|errf| {
+                std::process::Command::new(&exe)
+                    .arg("C17-lmdb-batch")
+                    .args(["--seed", &seed.to_string(), "--from", &from.to_string(), "--to", &to.to_string()])
+                    .args(["--budget", &budget])
+                    .arg("--out")
+                    .arg(&out)
+                    .stderr(errf)
+                    .spawn()
+            });
+            (out, err, child)
+        };
+        // Ok(report) or Err(how the child ended + the end of its stderr)
+        let finish = |out: &Path, err: &Path, child: std::io::Result<std::process::Child>| -> Result<Value, String> {
+            let status = child.and_then(|mut ch| ch.wait());
+            match (&status, std::fs::read(out)) {
+                (Ok(st), Ok(bytes)) if st.success() => Ok(serde_json::from_slice(&bytes).unwrap_or(Value::Null)),
+                _ => {
+                    let text = std::fs::read_to_string(err).unwrap_or_default();
+                    let tail: String = text.lines().rev().take(25).collect::<Vec<_>>().into_iter().rev().collect::<Vec<_>>().join("\n");
+                    Err(format!("{status:?}\n{tail}"))
+                },
+            }
+        };
         let mut procs = Vec::new();
         for c in 0..children {
-            let (from, to) = (c * per_child, ((c + 1) * per_child).min(per_backend));
-            if from >= to {
-                continue;
+            if c * per_child < per_backend {
+                procs.push((c, spawn(c, 0)));
             }
-            let out = root.join(format!("lmdb-child-{c}.json"));
-            let child = std::process::Command::new(&exe)
-                .arg("C17-lmdb-batch")
-                .args(["--seed", &seed.to_string(), "--from", &from.to_string(), "--to", &to.to_string()])
-                .args(["--budget", &args.pick(240, 3000).to_string()])
-                .arg("--out")
-                .arg(&out)
-                .stderr(std::process::Stdio::null())
-                .spawn();
-            procs.push((c, out, child));
         }
-        for (c, out, child) in procs {
-            let status = child.and_then(|mut ch| ch.wait());
-            match (&status, std::fs::read(&out)) {
-                (Ok(s), Ok(bytes)) if s.success() => {
-                    let v: Value = serde_json::from_slice(&bytes).unwrap_or(Value::Null);
-                    report.merge_child(&v);
+        for (c, (out, err, child)) in procs {
+            match finish(&out, &err, child) {
+                Ok(v) => report.merge_child(&v),
+                Err(first) => {
+                    // A child that died is run once more: a crash which the same sequences reproduce is the
+                    // backend's (violation); one that does not come back is recorded and the second run counts.
+                    report.count("lmdb_child_retries", 1);
+                    let (out2, err2, child2) = spawn(c, 1);
+                    match finish(&out2, &err2, child2) {
+                        Ok(v) => {
+                            report.merge_child(&v);
+                            report.extra.insert(format!("lmdb_child_{c}_first_attempt"), json!(first));
+                        },
+                        Err(second) => {
+                            let (from, to) = (c * per_child, ((c + 1) * per_child).min(per_backend));
+                            report.add_violation(
+                                Violation {
+                                    signature: "C17:lmdb-process-died-reproducibly".into(),
+                                    detail: json!({"sequences": [from, to], "seed": seed, "first_attempt": first, "second_attempt": second}),
+                                },
+                                Some(json!({"backend": "lmdb", "seed": seed, "batch": [from, to]})),
+                            );
+                        },
+                    }
                 },
-                _ => report.run_inconclusive.push(format!("LMDB child {c} did not finish: {status:?}")),
             }
         }
     }
     let _ = std::fs::remove_dir_all(&root);
-    for k in ["sequences_memstore", "sequences_sqlite_file", "sequences_sqlite_memory", "sequences_lmdb"] {
-        report.floor(k, 50);
+    // floors only for the backends this run was asked to drive
+    let selected = args.opt_str("backend");
+    for (k, b) in [("sequences_memstore", "memstore"), ("sequences_sqlite_file", "sqlite-file"), ("sequences_sqlite_memory", "sqlite-memory"), ("sequences_lmdb", "lmdb")] {
+        if selected.map_or(true, |s| s == b) {
+            report.floor(k, 50.min(per_backend));
+        }
     }
-    report.floor("reopens", 100);
-    report.floor("tombstones_written", 1000);
+    if selected.map_or(true, |s| s != "memstore" && s != "sqlite-memory") {
+        report.floor("reopens", 100.min(per_backend));
+    }
+    report.floor("tombstones_written", 1000.min(per_backend * 3));
     report.finish(args);
+}
+
+/// The runtime LMDB sequences run on: one scheduler thread and exactly one, never exiting,
+/// blocking-pool thread, so that the process' thread count identifies the backend's worker.
+fn lmdb_runtime() -> tokio::runtime::Runtime {
+    tokio::runtime::Builder::new_current_thread()
+        .enable_all()
+        .thread_keep_alive(Duration::from_secs(1_000_000))
+        .max_blocking_threads(1)
+        .build()
+        .unwrap()
 }
 
 /// Child entry point: `mon C17-lmdb-batch --from A --to B --out O`.
@@ -490,13 +586,15 @@ pub fn c17_lmdb_batch(args: &Args) {
     let (from, to) = (args.opt_u64("from", 0), args.opt_u64("to", 0));
     let budget = Duration::from_secs(args.opt_u64("budget", 240));
     let root = scratch_root();
-    let rt = tokio::runtime::Builder::new_current_thread()
-        .enable_all()
-        .thread_keep_alive(Duration::from_secs(1_000_000))
-        .build()
-        .unwrap();
+    let rt = lmdb_runtime();
     let seed = args.seed;
     let t0 = std::time::Instant::now();
+    // self-test of the parent's crash handling (seeded/self/selftest.py): die like liblmdb would
+    match std::env::var("VERIF_SELFTEST_LMDB_CRASH").as_deref() {
+        Ok("always") if from == 0 => std::process::abort(),
+        Ok("once") if from == 0 && args.out.as_ref().map_or(false, |o| o.to_string_lossy().ends_with("-0.json")) => std::process::abort(),
+        _ => {},
+    }
     for i in from..to {
         if t0.elapsed() > budget {
             report.extra.insert("watchdog".into(), json!(format!("budget reached after {} of {} sequences", i - from, to - from)));
